@@ -497,6 +497,12 @@ func (a *Authenticator) ClientHandshake(ctx context.Context) (*SecurityNegotiati
 				Reason:    "pre-registered session not found in cache",
 			}
 		}
+		if a.config.Authentication == SecurityRequired && !sessionAuthenticated(entry) {
+			return nil, &SessionResumptionError{
+				SessionID: a.config.SessionID,
+				Reason:    "pre-registered session was established without authentication, which this client's policy requires",
+			}
+		}
 		slog.Info(fmt.Sprintf("🔐 CLIENT: Using pre-registered session %s (explicit SessionID)",
 			redactSessionID(entry.ID())), "destination", "cedar")
 		return a.resumeSession(ctx, entry, cache)
@@ -514,8 +520,12 @@ func (a *Authenticator) ClientHandshake(ctx context.Context) (*SecurityNegotiati
 		// Only a session that carries an AES key can be resumed (the key is what
 		// protects the resumed connection); a keyless cached session falls through to
 		// a full handshake.
+		// A client whose policy REQUIRES authentication does not ride a session that was
+		// established without it (by an earlier connection under a laxer policy): it
+		// falls through to a full handshake, in which authentication runs.
 		if entry, ok := cache.LookupByCommand(a.config.SecurityTag, serverAddr, cmdStr); ok &&
-			entry.KeyInfo() != nil && len(entry.KeyInfo().Data) > 0 && isAESGCM(CryptoMethod(entry.KeyInfo().Protocol)) {
+			entry.KeyInfo() != nil && len(entry.KeyInfo().Data) > 0 && isAESGCM(CryptoMethod(entry.KeyInfo().Protocol)) &&
+			(a.config.Authentication != SecurityRequired || sessionAuthenticated(entry)) {
 			slog.Info(fmt.Sprintf("🔐 CLIENT: Found cached session %s for %s, attempting to resume...",
 				redactSessionID(entry.ID()), serverAddr), "destination", "cedar")
 
@@ -661,6 +671,29 @@ func (a *Authenticator) performFullAuthentication(ctx context.Context, cache *Se
 	return negotiation, nil
 }
 
+// sessionAuthenticated reports whether a cached session was established with
+// authentication (every path that creates a session records it in the policy).
+func sessionAuthenticated(entry *SessionEntry) bool {
+	if p := entry.Policy(); p != nil {
+		if authed, ok := p.EvaluateAttrBool("Authenticated"); ok {
+			return authed
+		}
+	}
+	return false
+}
+
+// authenticationRequiredFor reports whether this server's policy for the given
+// command (the per-command policy when there is one) marks authentication REQUIRED.
+func (a *Authenticator) authenticationRequiredFor(command int) bool {
+	cfg := a.config
+	if a.ServerConfigForCommand != nil {
+		if perCmd := a.ServerConfigForCommand(command); perCmd != nil {
+			cfg = perCmd
+		}
+	}
+	return cfg != nil && cfg.Authentication == SecurityRequired
+}
+
 // handleSessionResumption handles a session resumption request from the client
 func (a *Authenticator) handleSessionResumption(ctx context.Context, sessionID string, clientAd *classad.ClassAd, command int) (*SecurityNegotiation, error) {
 	// Prefer the per-connection cache (set on the server's SecurityConfig) so a
@@ -689,6 +722,19 @@ func (a *Authenticator) handleSessionResumption(ctx context.Context, sessionID s
 	// would inherit its identity, and everything after the reply would be clear).
 	if ok && (entry.KeyInfo() == nil || len(entry.KeyInfo().Data) == 0 || !isAESGCM(CryptoMethod(entry.KeyInfo().Protocol))) {
 		ok = false
+	}
+	// REQUIRED means required for a resumed connection too: when this server's policy
+	// (for the command the request names) mandates authentication, a session that was
+	// established without it is not resumed -- the client is told the session is
+	// unknown and comes back with a full handshake, in which authentication runs.
+	if ok && !sessionAuthenticated(entry) {
+		resumedCommand := command
+		if c, found := clientAd.EvaluateAttrInt("Command"); found {
+			resumedCommand = int(c)
+		}
+		if a.authenticationRequiredFor(resumedCommand) {
+			ok = false
+		}
 	}
 	if !ok {
 		slog.Info(fmt.Sprintf("🔐 SERVER: Session %s not found or expired", redactSessionID(sessionID)), "destination", "cedar")
